@@ -35,6 +35,11 @@ CLAIMS = {
   note="Assumes the dyn() contracts for RouteHandler/Middleware values (invocation counted by ghost ncalls, application = wrap), http.Header.Get deterministic, router type invariant; registerRoute/registerCompiledRoute (pass routeMiddlewares(route) through) not under contract; the code compares bearer tokens with the secret (no JWT signature check). One genuine defect found and repaired: recordAuthFailure dereferenced a tracker that another critical section may have deleted (nil obligation).",
   technique="contract-based deductive verification: ghost call counter, dyn() contracts for func values, recursive spec function for the middleware chain, WP over go/ssa",
   design="§5 C06"),
+ "C16": dict(
+  text="Deductive proof of monitor invariants and lock discipline for rooms, the room table, a connection's own room set and the hub's connection table: a room never exceeds the limit in force (Add re-establishes len <= max at Unlock), every load/store/map operation on a guarded field happens with the right lock held (write lock for writes), Room.Broadcast sends only on the send channel of a current member other than the excluded connection, Join/Leave keep the connection's own view in agreement with the room (membership recorded only after the room accepted), the hub's register critical section adds at most one connection and only below MaxConnectionsPerHub, SetMaxConnections is confined to unpublished rooms.",
+  note="Interference modelled only at Lock (guarded state havocked + invariant assumed); channels carry no heap effect; callees lock-balanced; handlers called from Hub.Run assumed to touch only the monitor-protected tables; RemoveConnectionFromAllRooms is a trusted summary. Not decided: delivery/ordering through WritePump, close(send)-before-room-removal (send on closed channel), Connection.Close self-deadlock from hub handlers, shutdown. One genuine defect found and repaired: JoinRoom recorded membership although the room was full.",
+  technique="contract-based deductive verification: monitor invariants on mutexes, guarded-by obligations, send preconditions, at-unlock assertions over go/ssa WP",
+  design="§5 C16"),
 }
 
 def main():
